@@ -121,8 +121,8 @@ theorem resize_loop1 (this b : Nat) (H : Nat → Hdr) : ∀ (k fuel i : Nat) (st
 
 /-- `reserve`: copy-construct slot j of the new block from slot j of the old one, destroy the old one; j = i .. i+k-1 -/
 theorem reserve_loop (this ob nb : Nat) (H : Nat → Hdr) : ∀ (k fuel i : Nat) (st : State), k < fuel →
-    LifeArray.reserve_loop1 this (.heap ob (i + k)) fuel (mk st H) (.heap nb i) (.heap ob i) =
-      some (mk (reserveCopy st ob nb (List.range' i k)) H, .heap nb (i + k), .heap ob (i + k)) := by
+    LifeArray.reserve_loop1 this (.heap ob (i + k)) fuel (mk st H) (.heap ob i) (.heap nb i) =
+      some (mk (reserveCopy st ob nb (List.range' i k)) H, .heap ob (i + k), .heap nb (i + k)) := by
   intro k
   induction k with
   | zero => intro fuel i st hf; cases fuel with
@@ -142,8 +142,8 @@ def copySlots (st : State) (db di sb si : Nat) : Nat → State
   | k + 1 => copySlots (st.ctor (.heap db di 1) (some (.heap sb si 1)) (st.mem (.heap sb si 1))) db (di + 1) sb (si + 1) k
 
 theorem copyCtor_loop (this db sb : Nat) (H : Nat → Hdr) : ∀ (k fuel di si : Nat) (st : State), k < fuel →
-    LifeArray.copyCtor_loop1 this (.heap sb (si + k)) fuel (mk st H) (.heap db di) (.heap sb si) =
-      some (mk (copySlots st db di sb si k) H, .heap db (di + k), .heap sb (si + k)) := by
+    LifeArray.copyCtor_loop1 this (.heap sb (si + k)) fuel (mk st H) (.heap sb si) (.heap db di) =
+      some (mk (copySlots st db di sb si k) H, .heap sb (si + k), .heap db (di + k)) := by
   intro k
   induction k with
   | zero => intro fuel di si st hf; cases fuel with
@@ -158,8 +158,8 @@ theorem copyCtor_loop (this db sb : Nat) (H : Nat → Hdr) : ∀ (k fuel di si :
       simp [LifeArray.copyCtor_loop1, this, copySlots]
 
 theorem assign_loop (this db sb : Nat) (H : Nat → Hdr) : ∀ (k fuel di si : Nat) (st : State), k < fuel →
-    LifeArray.assign_loop1 this (.heap sb (si + k)) fuel (mk st H) (.heap db di) (.heap sb si) =
-      some (mk (copySlots st db di sb si k) H, .heap db (di + k), .heap sb (si + k)) := by
+    LifeArray.assign_loop1 this (.heap sb (si + k)) fuel (mk st H) (.heap sb si) (.heap db di) =
+      some (mk (copySlots st db di sb si k) H, .heap sb (si + k), .heap db (di + k)) := by
   intro k
   induction k with
   | zero => intro fuel di si st hf; cases fuel with
@@ -190,8 +190,8 @@ theorem appendArr_loop (this db sb : Nat) (H : Nat → Hdr) : ∀ (k fuel di si 
       simp [LifeArray.appendArr_loop1, hlt, this, copySlots]
 
 theorem appendPtr_loop (this db sb : Nat) (H : Nat → Hdr) : ∀ (k fuel di si : Nat) (st : State), k < fuel →
-    LifeArray.appendPtr_loop1 this (.heap db (di + k)) fuel (mk st H) (.heap sb si) (.heap db di) =
-      some (mk (copySlots st db di sb si k) H, .heap sb (si + k), .heap db (di + k)) := by
+    LifeArray.appendPtr_loop1 this (.heap db (di + k)) fuel (mk st H) (.heap db di) (.heap sb si) =
+      some (mk (copySlots st db di sb si k) H, .heap db (di + k), .heap sb (si + k)) := by
   intro k
   induction k with
   | zero => intro fuel di si st hf; cases fuel with
@@ -211,7 +211,7 @@ def fillSlots (st : State) (b : Nat) (src : State → Option Loc × Option Nat) 
   | i, k + 1 => fillSlots (st.ctor (.heap b i 1) (src st).1 (src st).2) b src (i + 1) k
 
 theorem resize_loop2_heap (this b sb si : Nat) (H : Nat → Hdr) : ∀ (k fuel i : Nat) (st : State), k < fuel →
-    LifeArray.resize_loop2 this (.heap sb si) (.heap b (i + k)) fuel (mk st H) (.heap b i) =
+    LifeArray.resize_loop2 this (.heap b (i + k)) (.heap sb si) fuel (mk st H) (.heap b i) =
       some (mk (fillSlots st b (fun s => (some (.heap sb si 1), s.mem (.heap sb si 1))) i k) H, .heap b (i + k)) := by
   intro k
   induction k with
@@ -227,7 +227,7 @@ theorem resize_loop2_heap (this b sb si : Nat) (H : Nat → Hdr) : ∀ (k fuel i
       simp [LifeArray.resize_loop2, this, fillSlots]
 
 theorem resize_loop2_ext (this b p : Nat) (H : Nat → Hdr) : ∀ (k fuel i : Nat) (st : State), k < fuel →
-    LifeArray.resize_loop2 this (.ext p) (.heap b (i + k)) fuel (mk st H) (.heap b i) =
+    LifeArray.resize_loop2 this (.heap b (i + k)) (.ext p) fuel (mk st H) (.heap b i) =
       some (mk (fillSlots st b (fun _ => (some .ext, some p)) i k) H, .heap b (i + k)) := by
   intro k
   induction k with
@@ -244,8 +244,8 @@ theorem resize_loop2_ext (this b p : Nat) (H : Nat → Hdr) : ∀ (k fuel i : Na
 
 /-- `remove`: `*dest = *(++pos)` for pos = i .. i+k-1 -/
 theorem remove_loop (this b : Nat) (H : Nat → Hdr) : ∀ (k fuel i : Nat) (st : State) (d : Ptr), k < fuel →
-    ∃ d', LifeArray.remove_loop1 this (.heap b (i + k)) fuel (mk st H) (.heap b i) d =
-      some (mk (shiftDown st b (List.range' i k)) H, .heap b (i + k), d') := by
+    ∃ d', LifeArray.remove_loop1 this (.heap b (i + k)) fuel (mk st H) d (.heap b i) =
+      some (mk (shiftDown st b (List.range' i k)) H, d', .heap b (i + k)) := by
   intro k
   induction k with
   | zero => intro fuel i st d hf; cases fuel with
@@ -260,8 +260,8 @@ theorem remove_loop (this b : Nat) (H : Nat → Hdr) : ∀ (k fuel i : Nat) (st 
       exact ⟨d', by simp [LifeArray.remove_loop1, hlt, hd, List.range'_succ, shiftDown]⟩
 
 theorem removeIt_loop (this b : Nat) (H : Nat → Hdr) : ∀ (k fuel i : Nat) (st : State) (d : Ptr), k < fuel →
-    ∃ d', LifeArray.removeIt_loop1 this (.heap b (i + k)) fuel (mk st H) (.heap b i) d =
-      some (mk (shiftDown st b (List.range' i k)) H, .heap b (i + k), d') := by
+    ∃ d', LifeArray.removeIt_loop1 this (.heap b (i + k)) fuel (mk st H) d (.heap b i) =
+      some (mk (shiftDown st b (List.range' i k)) H, d', .heap b (i + k)) := by
   intro k
   induction k with
   | zero => intro fuel i st d hf; cases fuel with
